@@ -248,6 +248,39 @@ where
     }
 }
 
+/// C13: every closed blob that holds records has an up-to-date index file (called after idling
+/// longer than the maximal deferral).
+pub async fn check_dumped<K>(ctx: &Rc<RunCtx>, storage: &Storage<K>)
+where
+    for<'a> K: Key<'a> + AsRef<K> + 'static,
+{
+    settle(ctx).await;
+    let active = if storage.has_active_blob().await { storage.records_count_detailed().await.last().map(|x| x.0) } else { None };
+    let attached = ctx.attached();
+    let mut missing = Vec::new();
+    {
+        let w = ctx.world.inner.borrow();
+        for b in attached.iter() {
+            if Some(*b) == active {
+                continue;
+            }
+            let nrec = w.phys.get(b).map(|v| v.iter().filter(|r| r.complete).count()).unwrap_or(0);
+            if nrec == 0 {
+                continue;
+            }
+            let bl = w.shadows.get(&format!("{}.{}.blob", PREFIX, b)).map(|s| s.last_write_seq).unwrap_or(0);
+            let ok = w.shadows.get(&format!("{}.{}.index", PREFIX, b)).map(|s| !s.removed && s.syncs > 0 && !s.content.is_empty() && s.last_write_seq > bl).unwrap_or(false);
+            if !ok {
+                missing.push(*b);
+            }
+        }
+    }
+    ctx.world.probe("dump_completeness_checked");
+    if !missing.is_empty() {
+        ctx.violate(&["C13"], "index-dump-missing", "a closed blob that holds records has no up-to-date index file although more than the maximal deferral has passed without requests", format!("blobs {:?} active {:?}; {}", missing, active, ctx.last_step_note.borrow()));
+    }
+}
+
 /// C03: counters that must survive a clean restart unchanged.
 pub async fn compare_counters_after_restart<K>(ctx: &Rc<RunCtx>, before: &CounterSnap, storage: &Storage<K>, damage: &[AtRest])
 where
